@@ -23,7 +23,7 @@ from .corpus import CORPUS
 
 PROP = "C03"
 GRAMMARS = ["g1", "g2", "g3", "p1", "p2", "p3", "c1", "v1", "o2", "e1x"]
-GRAMMARS = ["g1", "g2", "g3", "g4", "p1", "p2", "p3", "c1", "v1", "o2"]
+GRAMMARS = ["g1", "g2", "g3", "g4", "p1", "p2", "p3", "c1", "v1", "o2", "x1"]
 
 
 def all_named(level, acc):
